@@ -372,7 +372,7 @@ func (c *Client) doWithRedirects(cli *http.Client, req *http.Request, remote str
 		return nil, errors.New(tr.Tr.Get("failed to redirect request"))
 	}
 
-	return c.doWithRedirects(cli, redirectedReq, remote, via)
+	return c.doWithRedirects(cli, redirectedReq, remote, append(via, req))
 }
 
 func (c *Client) configureProtocols(u *url.URL, transport *http.Transport) error {
